@@ -19,10 +19,77 @@ theorem flatten_setT_notPresent (P O : Table) (fd : Fd) :
 
 theorem flatten_tryFd (P O : Table) (m : Fd) : flatten P O m = (tryFd P O m).map H.ofd := rfl
 
-/-- `exec`: the merged table read on its own is the flattened pair -/
-theorem flatten_merged (P O : Table) : flatten (merged P O) emptyT = flatten P O := by
-  funext x
-  cases hO : O x <;> cases hP : P x <;> simp [flatten, tryFd, emptyT, merged, Table.tryFd, hO, hP]
+/-- a redirection changes the flat table only at its own descriptors -/
+theorem apply_outside_own (nc : Bool) (T T' : Flat) (s s' : Sys) (r : Redir)
+    (h : FdFlat.apply nc T s r = some (T', s')) (fd : Fd) (hfd : fd ∉ ownFds r) : T' fd = T fd := by
+  cases r with
+  | file n k p =>
+    simp only [FdFlat.apply, Option.map_eq_some_iff] at h
+    obtain ⟨x, _, hx⟩ := h
+    simp only [Prod.mk.injEq] at hx
+    rw [← hx.1]
+    simp only [ownFds, List.mem_singleton] at hfd
+    simp [setF, hfd]
+  | dup n input src dash =>
+    cases src with
+    | none =>
+      simp only [FdFlat.apply, Option.some.injEq, Prod.mk.injEq] at h
+      rw [← h.1]
+      cases dash
+      · simp
+      · simp only [ownFds, ↓reduceIte, List.mem_singleton] at hfd
+        simp [setF, hfd]
+    | fd m =>
+      simp only [FdFlat.apply] at h
+      cases hm : T m with
+      | none => simp [hm] at h
+      | some id =>
+        simp only [hm, Option.some.injEq, Prod.mk.injEq] at h
+        rw [← h.1]
+        by_cases hc : dash = true ∧ m ≠ n.getD (if input then 0 else 1)
+        · have hfd' : fd ∉ [n.getD (if input then 0 else 1), m] := by simpa [ownFds, hc] using hfd
+          simp only [List.mem_cons, List.not_mem_nil, or_false, not_or] at hfd'
+          simp [hc, setF, hfd'.1, hfd'.2]
+        · have hfd' : fd ∉ [n.getD (if input then 0 else 1)] := by simpa [ownFds, hc] using hfd
+          simp only [List.mem_singleton] at hfd'
+          simp [hc, setF, hfd']
+    | word p =>
+      by_cases hc : n.getD (if input then 0 else 1) = 1 ∧ dash = false
+      · simp only [FdFlat.apply, hc, and_self, ↓reduceIte, outErr, Option.map_eq_some_iff] at h
+        obtain ⟨x, _, hx⟩ := h
+        simp only [Prod.mk.injEq] at hx
+        rw [← hx.1]
+        simp only [ownFds, List.mem_cons, List.not_mem_nil, or_false, not_or] at hfd
+        simp [setF, hfd.1, hfd.2]
+      · simp [FdFlat.apply, hc] at h
+  | outErr p a =>
+    simp only [FdFlat.apply, outErr, Option.map_eq_some_iff] at h
+    obtain ⟨x, _, hx⟩ := h
+    simp only [Prod.mk.injEq] at hx
+    rw [← hx.1]
+    simp only [ownFds, List.mem_cons, List.not_mem_nil, or_false, not_or] at hfd
+    simp [setF, hfd.1, hfd.2]
+  | here n c =>
+    simp only [FdFlat.apply, Sys.push, Option.some.injEq, Prod.mk.injEq] at h
+    rw [← h.1]
+    simp only [ownFds, List.mem_singleton] at hfd
+    simp [setF, hfd]
+
+/-- … and so does a whole list, wherever it stops -/
+theorem applyAll_outside_own (nc : Bool) (rs : List Redir) (T : Flat) (s : Sys) (fd : Fd)
+    (hfd : fd ∉ rs.flatMap ownFds) : (FdFlat.applyAll nc T s rs).1 fd = T fd := by
+  induction rs generalizing T s with
+  | nil => rfl
+  | cons r rs ih =>
+    simp only [List.flatMap_cons, List.mem_append, not_or] at hfd
+    simp only [FdFlat.applyAll]
+    cases hr : FdFlat.apply nc T s r with
+    | none => rfl
+    | some x =>
+      obtain ⟨T', s'⟩ := x
+      simp only
+      rw [ih T' s' hfd.2]
+      exact apply_outside_own nc T T' s s' r hr fd hfd.1
 
 /-- brush's `OpenOptions` and the reference `open` calls have the same effect -/
 theorem sysOpen_flagsFor (nc : Bool) (s : Sys) (k : Kind) (p : Path) :
